@@ -96,6 +96,8 @@ def arg_for(d, data, variant):
         return int.from_bytes(data, "big")
     if t == "Unsigned64Type" and variant % 2 == 0 and data[0] < 128:
         return int.from_bytes(data, "big")
+    if t == "AddressType" and (d.vendor, d.code) in dictx.PACKED_V4:
+        return str(ipaddress.IPv4Address(data)) if variant % 2 == 0 else data
     if t == "AddressType" and variant % 2 == 0:
         if data[:2] == b"\x00\x01":
             return str(ipaddress.IPv4Address(data[2:]))
